@@ -130,7 +130,7 @@ class ReplacementFrontend(ConstrainedFrontend):
 
     def downsize(self):
         self._actual_frontend.downsize()
-        self._replacement_cache.clear()
+        self._replacement_cache = dict(self._replacements)
 
     def __getstate__(self):
         return (
